@@ -154,6 +154,27 @@ static std::string print_unit(Builder& b, bool locs, std::string& state, int pre
    return os.str();
 }
 
+// num mode: the two public number-writing operators with values at every width boundary.  stdout: N <kind> <value> <hex of the text> state=<ok|...>
+static int num_mode()
+{
+   const unsigned long long vals[] = { 0ull, 9ull, 10ull, 99ull, 100ull, 65535ull, 65536ull, 2147483647ull, 2147483648ull, 4294967295ull, 4294967296ull,
+                                       999999999999999999ull, 1000000000000000000ull, 9223372036854775807ull, 9223372036854775808ull,
+                                       9999999999999999999ull, 10000000000000000000ull, 18446744073709551614ull, 18446744073709551615ull };
+   impl::Lexicon lex;
+   for (auto v : vals)
+      for (int kind = 0; kind < 2; ++kind) {
+         std::ostringstream os; ipr::Printer pp(lex, os);
+         Snapshot s0(os, pp);
+         std::string state;
+         try { if (kind == 0) pp << ipr::Mapping_level{ std::size_t(v) }; else pp << ipr::Decl_position{ std::size_t(v) }; }
+         catch (const std::exception& e) { state += std::string("|exception:") + typeid(e).name(); }
+         Snapshot s1(os, pp);
+         if (s0.flags != s1.flags or s0.fill != s1.fill or s0.width != s1.width or s0.prec != s1.prec) state += "|stream-state";
+         std::printf("N %s %llu %s state=%s\n", kind == 0 ? "Mapping_level" : "Decl_position", v, hex(os.str(), 4096).c_str(), state.empty() ? "ok" : state.c_str());
+      }
+   return 0;
+}
+
 static int prog_mode()
 {
    std::string line;
@@ -192,6 +213,8 @@ int main(int argc, char** argv)
    if (mode == "zoo") return zoo_mode();
    if (mode == "lit") return lit_mode();
    if (mode == "prog") return prog_mode();
+   if (mode == "num") return num_mode();
+   if (mode == "num") return num_mode();
    std::fprintf(stderr, "usage: print_driver zoo|lit\n");
    return 2;
 }
